@@ -9,6 +9,11 @@ CHECKS = {
    note='Coq kernel; Reals axioms (sig_forall_dec, sig_not_dec, functional_extensionality_dep, classic); extraction + OCaml driver; Rust harness; oracle; libm exp/ln not modelled for floats',
    ref='DESIGN.md §5 C18'),
 }
+CHECKS['C16'] = dict(
+   technique='Coq proof that neither parser model can reach a panic (explicit overflow/allocation sites, exponent cap) + differential correspondence of the extracted parsers against the Rust parsers on an exhaustive string space + independent grammar/conventional-reading oracle',
+   text='theorems for all strings and all Unicode classifications: parse_simple and parse_inter never panic (the model keeps the usize-overflow and capacity-overflow sites; the proof needs the exponent cap), every accepted power is within the cap; the model is tied to the code by exhaustive agreement on all strings over the 15-symbol alphabet up to length 4 (thorough 5) plus mutated grammatical text with classified Unicode; acceptance-implies-fidelity is decided on the implementation by an independent recogniser of the documented grammars and a conventional arithmetic reader',
+   note='Coq kernel, no axioms; extraction + OCaml driver; Rust harness; Python oracle; Unicode class table measured against Rust on every run',
+   ref='DESIGN.md §5 C16')
 NOT_APPLICABLE = {}
 ALL = ['C%02d' % i for i in range(1, 21)]
 PENDING_REASON = 'not claimed yet in this revision: model/proof under construction (see DESIGN.md §9); no check is registered so nothing is asserted'
